@@ -242,6 +242,10 @@ def generate(rng: random.Random, tier: str) -> dict:
             "policy": draw_policy(rng, groups=None, horizon=400),
         },
         "uuid_seed": rng.getrandbits(32),
+        # same values, other in-memory representation (what netCDF / FITS readers hand out)
+        "big_endian_input": np.dtype(dtype).itemsize > 1 and rng.random() < 0.08,
+        # GDAL-style keyword spelling of the codec level
+        "gdal_level_kw": rng.random() < 0.15,
     }
     return {"config": cfg, "workload": {"shape": [ny, nx]}}
 
@@ -350,6 +354,8 @@ def execute(record: dict, rng: Optional[random.Random]) -> Outcome:
         "padding_adds_whole_tiles": 0,
         "irregular_source_chunks": 0,
         "seven_or_more_levels": 0,
+        "big_endian_input": 0,
+        "gdal_style_level_keyword": 0,
         "rgb_like_3_or_4_samples": 0,
         "syx_width_3_or_4": 0,
         "concurrent_writer_calls": 0,
@@ -392,7 +398,11 @@ def execute(record: dict, rng: Optional[random.Random]) -> Outcome:
                     chunks = ((ns,) if cfg["band_chunk"] == "all" else (1,) * ns, iy, ix)
                 probes["irregular_source_chunks"] = 1
             # the graph gets its own copy: the reference pixels must stay out of reach of the code under test
-            arr = da.from_array(data.copy(), chunks=chunks, name=f"pix-{cfg['uuid_seed']:032x}")
+            feed = data.copy()
+            if cfg.get("big_endian_input"):
+                feed = feed.astype(feed.dtype.newbyteorder(">"))
+                probes["big_endian_input"] = 1
+            arr = da.from_array(feed, chunks=chunks, name=f"pix-{cfg['uuid_seed']:032x}")
             if axis == "SYX":
                 attrs = {} if nodata is None else {"nodata": nodata}
                 xx = xr.DataArray(arr, dims=("band", *gbox.dimensions), coords=xr_coords(gbox), attrs=attrs)
@@ -403,6 +413,11 @@ def execute(record: dict, rng: Optional[random.Random]) -> Outcome:
                 kw["predictor"] = cfg["predictor"]
             if cfg["level"] is not None:
                 kw["level"] = cfg["level"]
+            elif cfg.get("gdal_level_kw"):
+                gk = {"deflate": ("ZLEVEL", 4), "adobe_deflate": ("zlevel", 4), "zstd": ("ZSTD_LEVEL", 5), "lerc_zstd": ("ZSTD_LEVEL", 5), "lerc_deflate": ("ZLEVEL", 4)}.get(cfg["compression"])
+                if gk is not None:
+                    kw[gk[0]] = gk[1]
+                    probes["gdal_style_level_keyword"] = 1
             if cfg["blocksize"] != "unset":
                 bs = cfg["blocksize"]
                 kw["blocksize"] = [tuple(b) if isinstance(b, list) else b for b in bs] if isinstance(bs, list) else bs
@@ -802,6 +817,11 @@ def candidates(record: dict) -> Iterable[dict]:
         c = copy.deepcopy(record)
         c["config"]["irregular_chunks"] = None
         yield c
+    for k in ("big_endian_input", "gdal_level_kw"):
+        if cfg.get(k):
+            c = copy.deepcopy(record)
+            c["config"][k] = False
+            yield c
     for ax in range(2):
         if cfg["chunks"][ax] < 200:
             c = copy.deepcopy(record)
